@@ -1,15 +1,126 @@
-import QipVerif.Model.Sched
-/-! # C11 — pulse schedules are valid timetables (property theorems) -/
+import QipVerif.Lemmas.SchedPulse
+import QipVerif.Lemmas.SchedOracle
+/-!
+# C11 — pulse schedules are physically valid timetables
+
+Property theorems only.  Model: `QipVerif.Sched` (`Model/Sched.lean`, shared with C05), tied to
+`qutip_qip.compiler.scheduler` by `py/props/c11.py` (start times compared exactly).
+
+`startsGen alap allowPerm ns O2` is the list `Scheduler(method, allow_permutation).schedule(ns)`
+returns for a list of timed instructions; durations are integers over a common denominator.
+All theorems hold for **every** instruction list with non-negative (in particular positive)
+durations, both methods, both permutation settings and **every** permutation-valued ordering oracle
+`O2` of the scheduling pass (covers `random_shuffle`, the priority sort and the iteration order of
+the successor sets); `pulseStarts_eq` / `real_oracle_perm`: the executable model compared with the
+code is such an instance.
+
+Clauses: `start_nonneg`, `min_start_zero`, `dep_respected`, `makespan_le_sum` are theorems.
+`no_overlap` is **false** (`C11_counterexample_no_overlap`, known finding); `no_overlap_partial`
+proves it under an explicit hypothesis.
+-/
 namespace QipVerif.C11
-open QipVerif.Sched
+open QipVerif.Sched Relation
+
+variable (alap allowPerm : Bool) (ns : List Ins)
+variable (O2 : Nat → List Nat → List Nat)
+
+theorem pulseStarts_eq (cfg : Cfg) : pulseStarts cfg ns = startsGen cfg.alap cfg.allowPerm ns (O2of cfg ns) := rfl
+
+theorem real_oracle_perm (cfg : Cfg) : ∀ r l, (O2of cfg ns r l).Perm l := O2of_perm cfg ns
+
+theorem starts_length : (startsGen alap allowPerm ns O2).length = ns.length := startsGen_length alap allowPerm ns O2
+
+/-- **start_nonneg.** -/
+theorem start_nonneg (hO : ∀ r l, (O2 r l).Perm l) (hdur : ∀ a ∈ ns, 0 ≤ a.dur) (i : Nat) (hi : i < ns.length) :
+    0 ≤ (startsGen alap allowPerm ns O2).getD i 0 := by
+  rw [startsGen_getD alap allowPerm ns O2 hi]
+  exact startOf_nonneg alap allowPerm ns O2 hO (durIdx_nonneg ns hdur) hi
+
+/-- **min_start_zero.**  The earliest start is exactly `0`: some instruction starts at `0` and none earlier. -/
+theorem min_start_zero (hO : ∀ r l, (O2 r l).Perm l) (hdur : ∀ a ∈ ns, 0 ≤ a.dur) (hne : ns ≠ []) :
+    (∃ i, i < ns.length ∧ (startsGen alap allowPerm ns O2).getD i 0 = 0) ∧
+    ∀ i, i < ns.length → 0 ≤ (startsGen alap allowPerm ns O2).getD i 0 := by
+  refine ⟨?_, start_nonneg alap allowPerm ns O2 hO hdur⟩
+  obtain ⟨i, hi, h0⟩ := exists_start_zero alap allowPerm ns O2 hO hne
+  exact ⟨i, hi, by rw [startsGen_getD alap allowPerm ns O2 hi]; exact h0⟩
+
+/-- **dep_respected.**  If `i < j` share a qubit and the commutation rule does not declare them
+commuting, `j` does not start before `i` has finished (longest-path inequality along the dependency chain). -/
+theorem dep_respected (hO : ∀ r l, (O2 r l).Perm l) (hdur : ∀ a ∈ ns, 0 ≤ a.dur) (i j : Nat) (hij : i < j)
+    (hj : j < ns.length) (hs : shareIdx ns i j = true) (hc : commIdx allowPerm ns j i = false) :
+    (startsGen alap allowPerm ns O2).getD i 0 + durIdx ns i ≤ (startsGen alap allowPerm ns O2).getD j 0 := by
+  rw [startsGen_getD alap allowPerm ns O2 (by omega : i < ns.length), startsGen_getD alap allowPerm ns O2 hj]
+  exact dep_ineq alap allowPerm ns O2 hO (durIdx_nonneg ns hdur) hij hj hs hc
+
+/-- **makespan_le_sum.**  Every instruction finishes no later than the sequential execution would. -/
+theorem makespan_le_sum (hO : ∀ r l, (O2 r l).Perm l) (hdur : ∀ a ∈ ns, 0 ≤ a.dur) (i : Nat) (hi : i < ns.length) :
+    (startsGen alap allowPerm ns O2).getD i 0 + durIdx ns i ≤ (ns.map Ins.dur).sum := by
+  rw [startsGen_getD alap allowPerm ns O2 hi]
+  exact finish_le_sum alap allowPerm ns O2 hO (durIdx_nonneg ns hdur) i
+
+-- non-vacuity of the hypotheses and of the clauses on a schedule with unequal durations and a shuffle
+example : pulseStarts ⟨true, true, [[1, 0]]⟩
+    [⟨"X", [0], [], 1⟩, ⟨"Z", [1], [], 2⟩, ⟨"CNOT", [2], [1], 3⟩, ⟨"X", [2], [], 4⟩, ⟨"CNOT", [1], [0], 5⟩]
+    = [0, 0, 2, 0, 5] := by decide +kernel
+
+/-! ## no overlap -/
+
+/-- The clause in full: `noOverlap ns starts` — no two distinct instructions that share a qubit have
+intersecting execution intervals.  It does **not** hold in general (below).
+
+**no_overlap_partial.**  It holds when no qubit-sharing pair is declared commuting by the rule … -/
+theorem no_overlap_partial (hO : ∀ r l, (O2 r l).Perm l) (hdur : ∀ a ∈ ns, 0 ≤ a.dur)
+    (H : ∀ i j, i < j → j < ns.length → shareIdx ns i j = true → commIdx allowPerm ns j i = false) :
+    noOverlap ns (startsGen alap allowPerm ns O2) = true := by
+  rw [noOverlap_iff]
+  intro i hi j hj hij
+  have hd := durIdx_nonneg ns hdur
+  unfold overlaps
+  by_cases hs : shareIdx ns i j = true
+  · rw [startsGen_getD alap allowPerm ns O2 hi, startsGen_getD alap allowPerm ns O2 hj]
+    rcases Nat.lt_or_gt_of_ne hij with h | h
+    · have := dep_ineq alap allowPerm ns O2 hO hd h hj hs (H i j h hj hs)
+      have h3 : decide (startOf alap allowPerm ns O2 j < startOf alap allowPerm ns O2 i + durIdx ns i) = false := by
+        simp only [decide_eq_false_iff_not]; omega
+      simp [h3]
+    · have hs' : shareIdx ns j i = true := by rw [shareIdx, share_symm]; exact hs
+      have := dep_ineq alap allowPerm ns O2 hO hd h hi hs' (H j i h hi hs')
+      have h3 : decide (startOf alap allowPerm ns O2 i < startOf alap allowPerm ns O2 j + durIdx ns j) = false := by
+        simp only [decide_eq_false_iff_not]; omega
+      simp [h3]
+  · simp [hs]
+
+/-- … in particular always when permutation of commuting gates is disabled. -/
+theorem no_overlap_without_permutation (hO : ∀ r l, (O2 r l).Perm l) (hdur : ∀ a ∈ ns, 0 ≤ a.dur) :
+    noOverlap ns (startsGen alap false ns O2) = true :=
+  no_overlap_partial alap false ns O2 hO hdur (fun _ _ _ _ _ => by simp [commIdx])
+
+example : (∀ i j, i < j → j < 3 → shareIdx [⟨"CNOT", [1], [0], 10⟩, ⟨"SNOT", [2], [], 1⟩, ⟨"CNOT", [2], [1], 1⟩] i j = true →
+    commIdx true [⟨"CNOT", [1], [0], 10⟩, ⟨"SNOT", [2], [], 1⟩, ⟨"CNOT", [2], [1], 1⟩] j i = false) := by
+  intro i j hij hj
+  have : ∀ j ∈ List.range 3, ∀ i ∈ List.range j,
+      shareIdx [⟨"CNOT", [1], [0], 10⟩, ⟨"SNOT", [2], [], 1⟩, ⟨"CNOT", [2], [1], 1⟩] i j = true →
+      commIdx true [⟨"CNOT", [1], [0], 10⟩, ⟨"SNOT", [2], [], 1⟩, ⟨"CNOT", [2], [1], 1⟩] j i = false := by
+    decide +kernel
+  exact this j (List.mem_range.mpr hj) i (List.mem_range.mpr hij)
 
 /-- `[CNOT(0→1) d=10, SNOT(2) d=1, CNOT(0→2) d=1]` -/
 def witness : List Ins := [⟨"CNOT", [1], [0], 10⟩, ⟨"SNOT", [2], [], 1⟩, ⟨"CNOT", [2], [0], 1⟩]
 
+/-- ASAP schedules the witness at `[0, 0, 1]` … -/
 theorem C11_counterexample_starts : pulseStarts ⟨false, true, []⟩ witness = [0, 0, 1] := by decide +kernel
 
-/-- `no_overlap` is false: instructions 0 and 2 share qubit 0 and overlap in time. -/
-theorem C11_counterexample_no_overlap : noOverlap witness (pulseStarts ⟨false, true, []⟩ witness) = false := by
+/-- … so instructions 0 (`[0,10)`) and 2 (`[1,2)`) share qubit 0 and overlap. -/
+theorem C11_counterexample_overlap : overlaps witness (pulseStarts ⟨false, true, []⟩ witness) 0 2 = true := by
   decide +kernel
+
+/-- **Refutation of `no_overlap`**: the clause fails for a list with positive durations. -/
+theorem C11_counterexample_no_overlap :
+    ¬ (∀ (cfg : Cfg) (ns : List Ins), (∀ a ∈ ns, 0 < a.dur) → noOverlap ns (pulseStarts cfg ns) = true) := by
+  intro h
+  have h1 := h ⟨false, true, []⟩ witness (by decide)
+  have h2 : noOverlap witness (pulseStarts ⟨false, true, []⟩ witness) = false := by decide +kernel
+  rw [h1] at h2
+  exact absurd h2 (by simp)
 
 end QipVerif.C11
